@@ -2,6 +2,7 @@ import Pcore.Model.DispatchCtors
 import Pcore.Model.CtorNum
 import Pcore.Model.CtorBinary
 import Pcore.Model.CtorTimespan
+import Pcore.Model.CtorString
 /-!
 # `new` on the driver's alphabet: which constructor a receiver gets, and the whole call (property C16)
 
@@ -17,8 +18,9 @@ Core Lean only.
 * a wrapper type has its own `Name()` — `Optional`, `NotUndef`, `Variant`, the name of an alias — under which no constructor
   is registered: `new` on it reports INSTANCE_DOES_NOT_RESPOND, and `Init[wrapper]` CTOR_NOT_FOUND, whatever is wrapped.
   The wrapped type's constructor is reached only by `CoerceTo` through `Optional` (Model/CtorCoerce.lean).
-* `String` has a constructor that is *not* modelled (formatting): `ctorOf` answers `unmodelled` and the driver refuses
-  the op (the generator never emits it).
+* `String` has the formatting constructor: its signature and the format-less scalar cases are modelled
+  (Model/CtorString.lean); a call that needs the formatting machinery of C20 answers `UNMODELLED`, which `newModel` turns
+  into "no answer" (the driver refuses the op; the generator never emits it).
 -/
 namespace Pcore.Dispatch.Alpha
 
@@ -27,7 +29,6 @@ variable (pf : List Char → Option Nat)
 
 inductive CtorLookup where
   | none                    -- no constructor is registered under the type's name
-  | unmodelled              -- there is one, but this model does not cover it (String)
   | some (c : Ctor)
 
 /-- `px.Load(c, NewTypedName(NsConstructor, typ.Name()))` -/
@@ -42,7 +43,8 @@ def ctorOf : Ty → CtorLookup
   | .tuple _ => .some arrayCtor
   | .hash _ _ _ _ => .some hashCtor
   | .struct _ => .some hashCtor
-  | .str _ _ => .unmodelled
+  | .str _ _ => .some stringCtor
+  | .enum _ => .none        -- `Enum`, `Pattern`: string types without a constructor of their own
   | _ => .none
 
 /-- the receiver of the `newm` op: a type of the alphabet, `Init[T, initArgs…]` or the default `Init` -/
@@ -55,11 +57,9 @@ def recvOf : RecvTy → Option (Recv Ty Val)
   | .plain t => match ctorOf pf t with
     | .some c => some (.ctor t (ctorCall c))
     | .none => some (.noCtor t)
-    | .unmodelled => none
   | .init t ia => match ctorOf pf t with
     | .some c => some (.init t (initCall c ia))
     | .none => some .initNoCtor
-    | .unmodelled => none
   | .initDefault => some .initDefault
 
 def newModel (r : RecvTy) (args : List Val) : Option (NewOutcome Val) :=
